@@ -112,8 +112,21 @@ func differKind(want, got []byte) string {
 	a, e1 := oracle.Parse(got)
 	b, e2 := oracle.Parse(want)
 	if e1 != nil || e2 != nil {
-		// indented variants carry the harness's line prefix, which is not JSON
-		strip := func(x []byte) []byte { return bytes.ReplaceAll(x, []byte("→"), nil) }
+		// indented variants carry the harness's line prefix, which is not JSON: the last line of the
+		// expected text is the prefix followed by the closing bracket of the top-level value
+		prefix := "→"
+		if t := bytes.TrimRight(want, "\n"); len(t) > 1 {
+			if i := bytes.LastIndexByte(t, '\n'); i >= 0 && len(t)-i-2 > 0 {
+				prefix = string(t[i+1 : len(t)-1])
+			}
+		}
+		strip := func(x []byte) []byte {
+			if strings.TrimSpace(prefix) != "" {
+				x = bytes.ReplaceAll(x, []byte("\n"+prefix), []byte("\n"))
+			}
+			// (the multi-byte indent unit of the harness, wherever it is left)
+			return bytes.ReplaceAll(x, []byte("→"), nil)
+		}
 		a, e1 = oracle.Parse(strip(got))
 		b, e2 = oracle.Parse(strip(want))
 	}
